@@ -53,8 +53,8 @@ PROPS = {
     "C09": P(9, axioms=R_AXIOMS, sym_heavy=[r"dec_q_look_at.*"],
              assumptions=["model (coq/Model/Rotation.v look_to/look_at constructors, Transform.v dec_look_at_*) is hand-written; tied to /repo by the exact-arithmetic correspondence of this run",
               "theorems are over the reals (sqrt of the standard library); hypotheses: d non-zero and d x up non-zero (up not parallel to d)",
-              "Quaternion::look_at is by definition the conversion of Matrix3::look_to_lh (quat_of_m3); that the conversion preserves the rotation is C05 (for matrices of unit quaternions) and is "
-              "checked on the implementation by the executed predicate 'Quaternion::look_at ... agree with the matrices', not proved for arbitrary rotation matrices",
+              "Quaternion::look_at is by definition the conversion of Matrix3::look_to_lh (quat_of_m3); that the conversion preserves every rotation matrix is "
+              "C05_back_conversion_all_rotations, from which C09_quaternion / C09_decomposed_quaternion follow",
               "Matrix3 as a 2-D transform and Decomposed<Vector2, Basis2> are covered by the correspondence and the 2-D theorem about Matrix2::look_at only",
               "the correspondence needs exact square roots: d is a multiple of a row of a rational rotation matrix, up has a rational-length component orthogonal to d"],
              rule="every look_* entry point (Matrix2/3/4, Basis2/3, Quaternion, Decomposed over Basis3/Quaternion/Basis2, the Transform trait methods, the deprecated aliases) on directions in "
